@@ -6,10 +6,10 @@
      C04_sound    : forall bs r rf, dns_parse bs 0 = Ok r -> ref_decode bs = Some rf ->
                                     fields_agree r (rf_rec rf)
      C04_complete : forall bs, ref_strict bs = true -> exists r, dns_parse bs 0 = Ok r
-   C04_sound is proved below for ALL inputs (model of the tree with the C04 fixes applied, which is
-   what /repo now contains; octets are < 256).  C04_complete is decided on every run by the oracle
-   (FAIL ref-accepts) on the real library; its name part is C04_name_agreement. *)
-From CAres.Wire Require Import Cursor Name Record Parse Escape Escape_proofs RefDecode RefDecode_proofs Name_ref Parse_ref Parse_ref5.
+   BOTH are proved below for ALL inputs (model of the tree with the C04 fixes applied, which is what
+   /repo now contains; octets are < 256).  They are additionally decided on every run by the oracle
+   (FAIL ref-mismatch / ref-accepts) on the real library. *)
+From CAres.Wire Require Import Cursor Name Record Parse Escape Escape_proofs RefDecode RefDecode_proofs Name_ref Parse_ref Parse_ref5 Parse_cmp3.
 From CAres.Gen Require Import Consts.
 Local Open Scope Z_scope.
 
@@ -42,6 +42,19 @@ Theorem C04_sound : forall bs r rf,
   dns_parse bs 0 = Ok r -> ref_decode bs = Some rf -> fields_agree r (rf_rec rf).
 Proof. exact sound_fixed. Qed.
 Print Assumptions C04_sound.
+
+(* C04_complete, ALL inputs: every message the RFC reference decoder finds well formed within the
+   supported subset is accepted by ares_dns_parse() (flags 0).  [ref_strict] (RefDecode.v): the
+   lenient decoder can follow the message and every RDATA is consumed exactly; one question; opcode,
+   question class and RR classes ones the library knows (OPT exempt); no RR of the QTYPE-only type
+   255; the <character-string>s of HINFO / NAPTR / CAA and the URI target printable ASCII.  Any
+   type, any compression layout RFC 1035 4.1.4 allows, any option codes (repeated ones too), names
+   of any length, any RCODE.  With C04_sound: on the supported subset the parser returns exactly
+   the record the reference decoder describes. *)
+Theorem C04_complete : forall bs,
+  bytes_ok bs -> ref_strict bs = true -> exists r, dns_parse bs 0 = Ok r.
+Proof. exact complete_fixed. Qed.
+Print Assumptions C04_complete.
 
 (* C04_sound restricted to HEADER AND QUESTION, for all inputs (both tree variants): whenever the
    parser accepts a message and the reference decoder can follow it, the id, the flag bits, the
